@@ -52,6 +52,9 @@ def layouts():
     out.append(('disks', lambda: PassSequence([oval(disk_element_count=3), Transport(label="t1", duration=1, disk_element_count=4), rnd(disk_element_count=5)]), ip2, False))
     out.append(('disks-exit-point', lambda: PassSequence([oval(disk_element_count=4, exit_point=4e-3), Transport(label="t1", duration=1, disk_element_count=3),
                                                           rnd(disk_element_count=2, exit_point=2e-3)]), ip2, False))
+    out.append(('cooling-pipe-disks', lambda: PassSequence([oval(disk_element_count=2), CoolingPipe(label="cp", duration=1.5, inner_radius=0.05, coolant_volume_flux=1e-3,
+                                                                                                     disk_element_count=3),
+                                                            Transport(label="t1", length=0.5, disk_element_count=2), rnd()]), ip2, False))
     out.append(('spread-model', lambda: PassSequence([oval(), Transport(label="t1", duration=1), rnd()]), ip2, True))
     out.append(('transport-first', lambda: PassSequence([Transport(label="t0", duration=1, velocity=1.0), oval(), Transport(label="t1", duration=1), rnd()]), ip2, False))
     out.append(('rotator-first', lambda: PassSequence([Rotator(label="rot0", rotation=90, velocity=1.0), oval(), Transport(label="t1", duration=1), rnd()]), ip2, False))
@@ -180,6 +183,15 @@ def _check_sequence(chk, name, seq, returned, ip, prec):
                     for k, v in public(a.out_profile).items():
                         if k in public(b.in_profile) and not same_value(public(b.in_profile)[k], v):
                             fail('disks-handover', f"{u}: disk in_profile.{k} differs from the previous disk's out_profile")
+                # time along the disks: every disk ends at its start plus its duration, the first starts with the unit, the last ends with it
+                tol_t = 1e-9 * max(1.0, abs(float(u.out_profile.t)))
+                for d in disks:
+                    if abs(float(d.out_profile.t) - (float(d.in_profile.t) + float(d.duration))) > tol_t:
+                        fail('disks-time', f"{u}: disk {d.label!r} starts at t={float(d.in_profile.t):.9g}, lasts {float(d.duration):.9g} and ends at t={float(d.out_profile.t):.9g}")
+                        break
+                if abs(float(disks[0].in_profile.t) - float(u.in_profile.t)) > tol_t or abs(float(disks[-1].out_profile.t) - float(u.out_profile.t)) > max(tol_t, 10 * prec * float(u.duration)):
+                    fail('disks-time', f"{u}: the disks run from t={float(disks[0].in_profile.t):.9g} to {float(disks[-1].out_profile.t):.9g}, the unit from "
+                                       f"{float(u.in_profile.t):.9g} to {float(u.out_profile.t):.9g}")
                 if has_x and abs(float(disks[-1].out_profile.x) - float(u.out_profile.x)) > 1e-12 * max(1e-3, abs(float(u.length))):
                     fail('disks-x-end', f"{u}: last disk ends at x={float(disks[-1].out_profile.x)}, unit at {float(u.out_profile.x)}")
             if isinstance(u, PassSequence):
